@@ -17,7 +17,7 @@ CLAIMED = {
    tech="deterministic simulation: storage fault injection on writer-produced files, crash oracle"),
  "C03": dict(cat="exploration", ref="DESIGN.md §3 C03",
    text="Simulated CPU (step fuel ticked at six central engine sites), simulated memory (counting global allocator: 256 MiB live, 64 MiB single request), nesting depth 64 and a 10 s watchdog backstop. Workload: one control function per run after a short set-up (in a third of the CSI runs the same function 2-16 times over, so that clamps reading state the function itself changes compound), every CSI final x intermediates x 0-6 parameters from {empty,0,1,size,2^16,10^6,2^31-1}, self/mutually recursive and multiplicative macros, hex-macro repeats, sixel raster/repeat/colour headers, font DCS payloads with PSF header extremes, the rectangle functions with each edge independently on or far off the screen, Avatar repeats; every fourth run is a damaged file through the loaders under a 2e8-tick cap. Oracle: total ticks <= 16(n+1)W(H+n+1) + 4WH^2 + 5e5 (constants recorded; worst legitimate case measured at 15 % of the bound).",
-   note="Ticks are placed by hand; a loop touching no tick site is caught only by the allocator budget or the wall-clock watchdog (confirmed by solo replay, counted separately). Nothing is claimed about real running time.",
+   note="Ticks are placed by hand; a loop touching no tick site is caught only by the allocator budget or the wall-clock watchdog (confirmed by solo replay, counted separately). Nothing is claimed about real running time. Two genuine defects are recorded as known findings (known_findings.json, DESIGN.md 10.9) and printed as KNOWN-FINDING lines: an IcyDraw layer record declaring a huge width (identified by its class), and a SAUCE record declaring more than 1000 rows (identified by that property of the input; the generator's SAUCE fault keeps declared heights at or below 1000).",
    tech="deterministic simulation: resource (CPU/memory/stack) fault budgets as oracle"),
  "C08": dict(cat="exploration", ref="DESIGN.md §3 C08",
    text="Seeded edit histories over 63 public editing operations (plus current-layer / caret / selection / mirror-mode steering, also right before an undo) on 1-3 layer documents, with a second actor interleaving undo j / redo i<=j / undo-then-edit; the first 567 runs force every operation kind first, middle and last in histories of length 1-3. Reference model: observational snapshots (size, modes, palette, fonts, SAUCE, per-layer size/offset/properties/cells) recorded at every operation boundary; every undo/redo step that lands on a boundary must reproduce it, undo/redo must return Ok and not panic, an edit after undo must clear the redo history, an edit that adds no undo record must not change the document. 13 genuine defects are pinned as known findings (class = step kind + description of the operation being undone + differing field); a pinned class only covers histories containing one of the quarantined triggers, which the generator does not emit, so in this command it suppresses nothing.",
@@ -90,7 +90,7 @@ def main():
         "engines": [{"name": "sim", "path": "/verif/sim", "serves_properties": sorted(CLAIMED), "kind_free_text": "deterministic simulator: supervisor + worker processes, seeded trace generators, executors over the real engine, reference models, minimiser"}],
         "checks": checks,
         "not_applicable": na,
-        "notes": "Exit codes: 0 held, 1 violation (VIOLATION line with replay file), 2 harness error. VERIF_SEED selects the seed (default 20261004); VERIF_SCALE scales run counts; VERIF_WORKERS the process count.",
+        "notes": "Known findings and the list of repaired defects: /verif/known_findings.json (13 pinned for C08, 2 for C03; 97 'fixed:' lines). Exit codes: 0 held, 1 violation (VIOLATION line with replay file), 2 harness error. VERIF_SEED selects the seed (default 20261004); VERIF_SCALE scales run counts; VERIF_WORKERS the process count.",
     }
     json.dump(m, open("/verif/MANIFEST.json", "w"), indent=1)
     print("claimed", sorted(CLAIMED), "n/a", len(na))
